@@ -158,6 +158,12 @@ func doDump(w *World, what string) {
 		for _, f := range w.srcFuncs {
 			fmt.Println(fnKey(f))
 		}
+	case "cmdssa":
+		for _, f := range w.srcFuncs {
+			if f.Pkg == w.Cmd || (f.Parent() != nil && f.Parent().Pkg == w.Cmd) {
+				f.WriteTo(os.Stdout)
+			}
+		}
 	default:
 		// ssa:<substring>: the SSA form of every repository function whose name contains the substring
 		if sub, ok := strings.CutPrefix(what, "ssa:"); ok {
